@@ -284,6 +284,9 @@ func errClass(err error) string {
 		return ""
 	}
 	s := err.Error()
+	if strings.HasPrefix(s, "GO PANIC") {
+		return s
+	}
 	for _, k := range []string{"unreachable", "out of bounds memory access", "integer divide by zero", "integer overflow",
 		"invalid conversion to integer", "invalid table access", "indirect call type mismatch", "stack overflow",
 		"source module must be compiled before instantiation", "over limit", "exit_code", "context deadline exceeded", "context canceled"} {
@@ -334,6 +337,17 @@ func moduleID(c wazero.CompiledModule) string {
 	return hex.EncodeToString(m.ID[:])
 }
 
+// safeCall: a Go panic that escapes from api.Function.Call is part of the observable behaviour (a different one from
+// every error the call may return), not a reason for the harness to die.
+func safeCall(ctx context.Context, f api.Function, args []uint64) (res []uint64, err error) {
+	defer func() {
+		if r := recover(); r != nil {
+			err = fmt.Errorf("GO PANIC escaped from Call: %v", r)
+		}
+	}()
+	return f.Call(ctx, args...)
+}
+
 // run executes the script and returns the canonical trace.
 func (sd *side) run(p *prog) []string {
 	var tr []string
@@ -346,7 +360,7 @@ func (sd *side) run(p *prog) []string {
 			tr = append(tr, c.Fn+": no such export")
 			continue
 		}
-		res, err := f.Call(sd.ctx, c.Args...)
+		res, err := safeCall(sd.ctx, f, c.Args)
 		if err != nil {
 			tr = append(tr, fmt.Sprintf("%s%v: trap %s", c.Fn, c.Args, errClass(err)))
 		} else {
